@@ -819,6 +819,19 @@ def run(ck):
                 d["source"] = u
                 key = (n, k) + ((d.get("site_file"), d.get("site_msg")) if k == "panic" else ())
                 fails.setdefault(key, d)
+    # a stall can be the machine, not the engine: a hang only counts when the call alone, on a fresh engine and with a
+    # six times longer bound, still does not come back
+    hk = [key for key, d in fails.items() if d["outcome"] == "hang" and ck.classify(d) is None]
+    if hk:
+        conf = run_cases(ck, [[fails[key]["source"]] for key in hk], prelude=SWEEP_PRELUDE, env={"STEEL_JIT": "false"}, fresh=True, batch=1,
+                         stall=120, nproc=8)
+        for key, r in zip(hk, conf):
+            o = r[0] or {"missing": 1}
+            if kind_of_outcome(o) in ("ok", "err"):
+                del fails[key]
+            elif kind_of_outcome(o) != "hang":
+                d2 = describe_call(fails[key]["module"], fails[key]["builtin"], [], fails[key]["shape"], o)
+                fails[key].update({k: v for k, v in d2.items() if k in ("outcome", "panic", "site_file", "site_msg", "crash", "stderr")})
     for key, d in sorted(fails.items(), key=lambda kv: str(kv[0])):
         ck.failing_input("built-in %s: %s on %s%s" % (d["builtin"], d["outcome"], d["source"][:200],
                                                        (" [" + d.get("panic", "")[:160] + "]") if "panic" in d else ""), d, tag="builtin")
